@@ -59,6 +59,7 @@ lvars == <<cs, pc, w, s, pre, q, m, cv>>
 lvars_but_pc == <<cs, w, s, pre, q, m, cv>>
 
 None == <<>>
+NoPre == [L |-> 0, R |-> None, PR |-> None, HD |-> None, H |-> None, G |-> None]
 N == cs.n
 Idx == 1..N
 mode == cs.mode
@@ -101,9 +102,8 @@ HH(i) == pre.H[i]              \* sum of HD(k) Res(k), k < i
 GG(i) == pre.G[i]              \* sum of (Total - HD(k)) Res(k), k < i
 Total == HD(N)
 
-Edges == V([k \in 1..(N - 1) |-> k])
-(* <<0, f(1), f(1) + f(2), ...>>: the running sums over the edges, by iteration (no deep recursion) *)
-Running(f(_)) == FoldLeft(LAMBDA acc, k : Append(acc, acc[Len(acc)] + f(k)), <<0>>, Edges)
+(* <<0, x[1], x[1] + x[2], ...>>: running sums, by iteration (no deep recursion) *)
+RunSum(terms) == FoldLeft(LAMBDA acc, x : Append(acc, acc[Len(acc)] + x), <<0>>, terms)
 
 (* ---- candidates ----------------------------------------------------------------- *)
 Vq(a) == IF a \in snk THEN 1 ELSE 0
@@ -161,27 +161,38 @@ LegalCase(c) == /\ c.n >= 2
 LInit ==
   /\ cs \in {c \in Cases \cup SmallCases : LegalCase(c)}
   /\ pc = "chain"
-  /\ w = None /\ s = None /\ pre = None /\ q = None /\ m = None /\ cv = None
+  /\ w = None /\ s = None /\ pre = NoPre /\ q = None /\ m = None /\ cv = None
 
 BuildChain ==
   /\ pc = "chain"
   /\ w' = V([k \in Idx |-> IF k = N THEN 0 ELSE Override(cs.wov, k, PatAt(cs.wpat, k))])
   /\ s' = V([i \in Idx |-> Override(cs.sov, i, PatAt(cs.spat, i))])
-  /\ pc' = "prefix"
+  /\ pc' = "lcm"
   /\ UNCHANGED <<cs, pre, q, m, cv>>
 
-(* the mean first-passage sums are only formed in the mfpt modes (RangeOK bounds them) *)
+(* prefix sums, in three steps so that each one reads finished sequences of the previous state; *)
+(* the mean first-passage sums are only formed in the mfpt modes (RangeOK bounds them)           *)
+LeastCommonMultiple ==
+  /\ pc = "lcm"
+  /\ pre' = [pre EXCEPT !.L = LcmOf({w[k] : k \in 1..(N - 1)})]
+  /\ pc' = "resist"
+  /\ UNCHANGED <<cs, w, s, q, m, cv>>
+
+Resistances ==
+  /\ pc = "resist"
+  /\ pre' = [pre EXCEPT !.R  = V([k \in 1..(N - 1) |-> pre.L \div w[k]]),
+                        !.HD = RunSum(V([i \in Idx |-> Den(i)]))]
+  /\ pc' = "prefix"
+  /\ UNCHANGED <<cs, w, s, q, m, cv>>
+
 Prefix ==
   /\ pc = "prefix"
-  /\ LET ll == LcmOf({w[k] : k \in 1..(N - 1)})
-         rs == V([k \in 1..(N - 1) |-> ll \div w[k]])
-         pr == Running(LAMBDA k : rs[k])
-         hd == FoldLeft(LAMBDA acc, i : Append(acc, acc[Len(acc)] + Den(i)), <<0>>, V([i \in Idx |-> i]))
-         tt == hd[N + 1]
-         mf == mode \in {"mfpt_sinks", "mfpt_cols"}
-         h  == IF mf THEN Running(LAMBDA k : hd[k + 1] * rs[k]) ELSE None
-         g  == IF mf THEN Running(LAMBDA k : (tt - hd[k + 1]) * rs[k]) ELSE None
-     IN pre' = [L |-> ll, R |-> rs, PR |-> pr, HD |-> hd, H |-> h, G |-> g]
+  /\ LET mf == mode \in {"mfpt_sinks", "mfpt_cols"}
+         tt == pre.HD[N + 1]
+     IN pre' = [pre EXCEPT !.PR = RunSum(pre.R),
+                           !.H  = IF mf THEN RunSum(V([k \in 1..(N - 1) |-> pre.HD[k + 1] * pre.R[k]])) ELSE None,
+                           !.G  = IF mf THEN RunSum(V([k \in 1..(N - 1) |-> (tt - pre.HD[k + 1]) * pre.R[k]]))
+                                  ELSE None]
   /\ pc' = IF mode \in {"committor", "flux"} THEN "solve_q" ELSE "solve_m"
   /\ UNCHANGED <<cs, w, s, q, m, cv>>
 
@@ -199,12 +210,12 @@ SolveM ==
   /\ pc' = "done"
   /\ UNCHANGED <<cs, w, s, pre, q>>
 
-LNext == BuildChain \/ Prefix \/ SolveQ \/ SolveM
+LNext == BuildChain \/ LeastCommonMultiple \/ Resistances \/ Prefix \/ SolveQ \/ SolveM
 LSpec == LInit /\ [][LNext]_lvars
 
 (* ---- properties ---------------------------------------------------------------------- *)
 HasChain == pc \notin {"chain"}
-HasPre   == pc \notin {"chain", "prefix"}
+HasPre   == pc \notin {"chain", "lcm", "resist", "prefix"}
 HasQ     == q # None
 HasM     == m # None
 HasCols  == cv # None
